@@ -14,7 +14,7 @@ from pyfront import shimmed, unshimmed, SymBytes
 from symcore import HarnessError, Inconclusive
 
 PROP = 'C08'
-REPO_DIR = '/repo/asn1tools'
+REPO_DIR = os.path.join(os.environ.get('VERIF_REPO', '/repo'), 'asn1tools')
 
 
 class StepLimit(BaseException):
@@ -185,7 +185,8 @@ def _replay_decode(arg):
     lines = [0]
 
     def tr(frame, event, a):
-        if not frame.f_code.co_filename.startswith('/repo/asn1tools'):
+        import os
+        if not frame.f_code.co_filename.startswith(os.path.join(os.environ.get('VERIF_REPO', '/repo'), 'asn1tools')):
             return None
 
         def local(frame, event, a):
